@@ -216,9 +216,16 @@ class Ev:
         K, fty, key = self.field_key(obj, fname)
         if obj.ty.opt or obj.ty.k == "none":
             self.need(obj.t != 0, "none-deref", node)
-        v = self.it.coerce(v, fty, self.st, node, self.frame) if fty.k != "fn" else v
         if fty.k == "fn":
-            raise Unsupported("function valued field %s" % fname)
+            # a function-valued field (DOO.delta): only "is it set" is tracked; calling it yields an arbitrary real
+            if v.ty.k == "fn" and not isinstance(v.t, z3.ExprRef):
+                v = Val(z3.IntVal(1), fty)
+            elif v.ty.k in ("fn", "none"):
+                v = Val(v.t, fty)
+            else:
+                raise Unsupported("non-function stored into function valued field %s" % fname)
+        else:
+            v = self.it.coerce(v, fty, self.st, node, self.frame)
         A = self.u.get_arr(self.st, key, fty)
         self.it.frame_check(self.st, key, obj.t, self.u.where(node, self.frame), self.frame)
         if (K, fname) in self.ct.field_inv:
@@ -503,7 +510,13 @@ class Ev:
         b = self.ev(e.right)
         return self.binop(e.op, a, b, e)
 
+    def unopt(self, a, node):
+        if a.ty.k in ("int", "real") and a.ty.opt:
+            return self.it.coerce(a, Ty(a.ty.k, a.ty.a, False), self.st, node, self.frame, spec=self.spec)
+        return a
+
     def num2(self, a, b, node):
+        a, b = self.unopt(a, node), self.unopt(b, node)
         if not (a.ty.isnum() or a.ty.k == "bool") or not (b.ty.isnum() or b.ty.k == "bool"):
             raise Unsupported("arithmetic on %s and %s" % (a.ty, b.ty))
         if a.ty.k == "bool":
@@ -603,12 +616,18 @@ class Ev:
     def compare(self, op, a, b, node):
         if isinstance(op, (ast.Is, ast.IsNot, ast.Eq, ast.NotEq)):
             neg = isinstance(op, (ast.IsNot, ast.NotEq))
+            for x, y in ((a, b), (b, a)):
+                if x.ty.k in ("int", "real") and x.ty.opt and y.ty.k == "none":
+                    t = num.opt_dt(x.ty)[3](x.t)
+                    return z3.Not(t) if neg else t
+            a, b = self.unopt(a, node), self.unopt(b, node)
             if a.ty.isnum() and b.ty.isnum():
                 a, b, ty = self.num2(a, b, node)
                 t = a.t == b.t
             elif a.ty.k == "bool" and b.ty.k == "bool":
                 t = a.t == b.t
-            elif (reflike(a.ty) or a.ty.k in ("none", "cls", "str")) and (reflike(b.ty) or b.ty.k in ("none", "cls", "str")):
+            elif (reflike(a.ty) or a.ty.k in ("none", "cls", "str", "fn")) and (reflike(b.ty) or b.ty.k in ("none", "cls", "str", "fn")) \
+                    and isinstance(a.t, z3.ExprRef) and isinstance(b.t, z3.ExprRef):
                 t = a.t == b.t
             else:
                 raise Unsupported("comparison of %s and %s" % (a.ty, b.ty))
